@@ -37,8 +37,10 @@ def specs(r):
     S.append(('swt', lambda: SWTForward(J=2, wave='db2'), (1, 2, 16, 24), 0.0))
     for b, q in (('near_sym_a', 'qshift_a'), ('near_sym_b', 'qshift_b'), ('antonini', 'qshift_d')):
         S.append(('dtcwt/%s' % b, lambda b=b, q=q: DTCWTForward(J=3, biort=b, qshift=q), (1, 2, 24, 32), 0.0))
-    for bias in (1e-2, 0.5):
+    for bias in (0.0, 1e-2, 0.5):
         S.append(('scat1/%g' % bias, lambda bias=bias: ScatLayer(magbias=bias), (1, 2, 16, 24), bias))
+        S.append(('scat1c/%g' % bias, lambda bias=bias: ScatLayer(magbias=bias, combine_colour=True), (1, 3, 16, 16), bias))
+        S.append(('scat1rot/%g' % bias, lambda bias=bias: ScatLayer(biort='near_sym_b_bp', magbias=bias), (1, 1, 16, 16), bias))
         S.append(('scat2/%g' % bias, lambda bias=bias: ScatLayerj2(magbias=bias), (1, 1, 16, 16), bias))
     return S
 
@@ -57,13 +59,17 @@ def oracle_cases(tier, rng):
     for nm in names:
         for chk in ('dtype', 'convert', 'strided', 'accuracy'):
             for rep in range(1 if tier == 'quick' else 4):
-                yield dict(transform=nm, check=chk, seed=int(rng.integers(1 << 30)))
+                if chk == 'accuracy':
+                    for kind in ('range', 'small', 'flat', 'gauss'):
+                        yield dict(transform=nm, check=chk, kind=kind, seed=int(rng.integers(1 << 30)))
+                else:
+                    yield dict(transform=nm, check=chk, seed=int(rng.integers(1 << 30)))
     for nm in [s[0] for s in inv_specs()]:
         for chk in ('dtype', 'accuracy', 'none_dtype'):
             yield dict(transform=nm, check=chk, seed=int(rng.integers(1 << 30)))
 
 def strat_key(cfg):
-    return cfg['transform'] + '/' + cfg['check']
+    return cfg['transform'] + '/' + cfg['check'] + '/' + str(cfg.get('kind', ''))
 
 def flat(o):
     return c15.flatten(o)
@@ -82,7 +88,13 @@ def oracle_run(cfg):
         chk = cfg['check']
         if cfg['transform'] in fwd:
             nm, mk, shp, bias = fwd[cfg['transform']]
-            X = big_range(r, shp) if chk == 'accuracy' else r.standard_normal(shp)
+            X = r.standard_normal(shp)
+            if chk == 'accuracy':
+                kind = cfg.get('kind', 'range')
+                if kind == 'range': X = big_range(r, shp)
+                elif kind == 'small': X = 1e-3 * r.standard_normal(shp)
+                elif kind == 'flat':
+                    X = np.full(shp, 0.75); X[..., 4:9, 5:11] = -1.25
             if chk == 'dtype':
                 for d0 in (torch.float32, torch.float64):
                     torch.set_default_dtype(d0)
@@ -128,8 +140,7 @@ def oracle_run(cfg):
             # gain = largest absolute row sum of the (linearised) operator; linear transforms: extract from basis inputs
             xmax = float(x32.abs().max())
             if nm.startswith('scat'):
-                # magnitudes are 1-Lipschitz in the subband values: gain of the linear part of the cascade, measured on |.| inputs
-                gain = gain_of(lambda t: flat(m64.__class__.__mro__[0].forward(m64, t)), shp, linear=False, m=m64)
+                gain = scat_gain(nm, shp)
             else:
                 gain = gain_of(lambda t: flat(m64(t)), shp)
             bound = 64 * eps32 * (gain * xmax + bias)
@@ -184,6 +195,26 @@ def oracle_run(cfg):
     finally:
         torch.set_default_dtype(old)
 
+
+_SG = {}
+def scat_gain(nm, shp):
+    """gain of the linear stages under the magnitudes: |z| <= |re| + |im|, so twice the largest absolute row sum of the DTCWT with the
+    same filters; squared for the second-order layer (magnitudes are 1-Lipschitz)"""
+    from pytorch_wavelets import DTCWTForward
+    key = (nm.split('/')[0], shp)
+    if key not in _SG:
+        rot = 'rot' in nm
+        if rot:
+            # band-pass family: bound by the plain family of the same lengths plus the h2 filters: use the filter l1 norms directly
+            from pytorch_wavelets.dtcwt import coeffs
+            g1 = max(float(np.abs(a).sum()) for a in coeffs.biort('near_sym_b_bp'))
+            g = g1 * g1
+        else:
+            J = 2 if nm.startswith('scat2') else 1
+            f = DTCWTForward(J=J).double()
+            g = gain_of(lambda t: c15.flatten(f(t)), (1, 1) + tuple(shp[2:]))
+        _SG[key] = (2 * g) ** (2 if nm.startswith('scat2') else 1)
+    return _SG[key]
 
 def gain_of(f, shp, linear=True, m=None):
     """largest absolute row sum of the operator: rows = outputs, columns = inputs; via basis inputs in float64"""
